@@ -68,6 +68,7 @@ func negSet(c *cx, id string) []*eng.Fn {
 
 func runC04(p *eng.Prog, r *eng.Report, tier string) {
 	c := &cx{p, r, tier}
+	c.r.Floor("C04.16", "deferred releases of a mutex", deferredReleaseNotInLoop(c, "C04.16"), 20)
 	// C04.15 no (nil, nil): what establishes a session (dialers, transport
 	// upgrades, the session constructors and what they call) reports a nil
 	// connection / session only together with an error (F130)
